@@ -192,7 +192,15 @@ func TestC09(t *testing.T) {
 								j.Set("strategy", st)
 							}
 							st.Del("matrix")
-							st.Set("matrix", ye.Q(rapid.SampledFrom([]string{"${{ inputs }}", "${{ github.event.inputs }}"}).Draw(rt, "mctx"), ye.Double))
+							if rapid.Bool().Draw(rt, "ctxasincludeelement") {
+								// the context object as the first element of an include-only matrix, followed
+								// by a literal element that brings a key of its own
+								inc := ye.L(ye.Q(rapid.SampledFrom([]string{"${{ inputs }}", "${{ github }}", "${{ github.event.inputs }}"}).Draw(rt, "incctx"), ye.Double), ye.M().Set("extra", ye.S("1")))
+								st.Set("matrix", ye.M().Set("include", inc))
+								pool = append(pool, "${{ inputs.extra }}", "${{ github.extra }}", "${{ github.event.inputs.extra }}", "${{ inputs.extra }}")
+							} else {
+								st.Set("matrix", ye.Q(rapid.SampledFrom([]string{"${{ inputs }}", "${{ github.event.inputs }}"}).Draw(rt, "mctx"), ye.Double))
+							}
 						}
 					}
 				}
